@@ -24,6 +24,39 @@ EXT = {'bit': ['.bit', '.BIT', ''], 'dlis': ['.dlis', '.DLIS', '.dls'], 'lis': [
 
 
 # ------------------------------------------------------------------------------------------------
+def vary(world, model, vseed):
+    """A sibling of a generated file (gen['variant']): the same log delivered again with corrections.  Identity, structure,
+    names and every length stay as they are; parameter values change (same length) and samples of one channel swap places."""
+    rng = seeds.Rng(seeds.derive('variant', world, vseed))
+
+    def swap(seq):
+        if len(seq) >= 2:
+            i, j = rng.sample(range(len(seq)), 2)
+            seq[i], seq[j] = seq[j], seq[i]
+
+    if world == 'dlis':
+        for lf in model['lfs']:
+            for prm in lf['params']:
+                prm[1] = ''.join(rng.pick('ABCXYZ019') if ch != ' ' else ch for ch in prm[1])
+            for fr in lf['frames']:
+                ncol = len(fr['channels'])
+                if ncol > 1 and len(fr['rows']) >= 2:
+                    c = rng.randrange(1, ncol)
+                    i, j = rng.sample(range(len(fr['rows'])), 2)
+                    fr['rows'][i]['bits'][c], fr['rows'][j]['bits'][c] = fr['rows'][j]['bits'][c], fr['rows'][i]['bits'][c]
+    elif world == 'bit':
+        for ps in model['passes']:
+            swap(ps['values'][rng.randrange(len(ps['values']))])
+    elif world == 'lis':
+        for lf in model['files']:
+            fr = lf.get('frames') or []
+            if len(fr) >= 2 and fr[0]:
+                c = rng.randrange(len(fr[0]))
+                i, j = rng.sample(range(len(fr)), 2)
+                fr[i][c], fr[j][c] = fr[j][c], fr[i][c]
+    return model
+
+
 # file contents from a gen spec (pure function of the spec)
 def file_content(gen):
     """Returns (bytes, fields, info) where fields = [(pos, n, name)] for damage biasing and info is
@@ -33,16 +66,22 @@ def file_content(gen):
     if world == 'bit':
         from worlds import bit
         model = bit.gen_model(rng, max_passes=gen.get('passes', 3), max_frames=gen.get('frames', 40), names_pool=gen.get('names'), long=gen.get('long', False))
+        if gen.get('variant'):
+            model = vary(world, model, gen['variant'])
         by, layout = bit.build(model)
         return by, layout['fields'], {'model': model, 'layout': layout}
     if world == 'dlis':
         from worlds import dlis_logical
         model = dlis_logical.gen_model(rng, max_frames=gen.get('frames', 30), names_pool=gen.get('names'), max_lfs=gen.get('lfs', 2))
+        if gen.get('variant'):
+            model = vary(world, model, gen['variant'])
         by, layout = dlis_logical.build(model)
         return by, layout['fields'], {'model': model, 'layout': layout}
     if world == 'lis':
         from worlds import lis_logical
         model = lis_logical.gen_model(rng, max_frames=gen.get('frames', 40), names_pool=gen.get('names'), small_pr=gen.get('small_pr', False))
+        if gen.get('variant'):
+            model = vary(world, model, gen['variant'])
         by, layout = lis_logical.build(model)
         return by, layout['fields'], {'model': model, 'layout': layout}
     if world == 'dlis_phys':
